@@ -86,6 +86,14 @@ CHECKS["C08"] = dict(
     ref="C08",
 )
 
+CHECKS["C12"] = dict(
+    technique="hand-written Coq model of is_ignored_via_amend over path components tied by vm_compute correspondence on real directory trees; Coq proofs for all component lists (covered iff at or below, component not string prefix, ./ and x/.. invariance, cwd irrelevant for absolute paths, other codes untouched); realpath oracle incl. symlinks; CLI runs",
+    category="proof",
+    text="Partial (symbolic links are outside the Coq model). Lib/Paths.v models pathlib's parts/normalisation, Path.resolve() on a symlink-free file system, config-root selection and the component-prefix test; it is compared with the real function on ~500 layouts per quick run built as real temp directories (siblings sharing a prefix, nesting, odd names, entries spelled with ./, x/.., //, trailing /, absolute; config in root/sub/parent directory; several working directories; code, category and foreign entries). Proved for all paths: an entry covers exactly the paths that extend it component-wise, `src` never covers `src2/...`, ./ and x/.. spellings are irrelevant, the cwd is irrelevant once config and file are absolute, entries for other codes change nothing. Symlinked directories/files and two CLI runs (config in a sub-directory, another cwd) are decided by execution against os.path.realpath.",
+    note="Trusted: Coq kernel; model-code correspondence for Lib/Paths.v; os.path.realpath as oracle. Symlinks: execution only.",
+    ref="C12",
+)
+
 NOT_APPLICABLE = {}
 
 
